@@ -63,7 +63,7 @@ func RunC02(run *core.Run, backend *SQLBackend, queries []Query, b Bounds) {
 			continue
 		}
 		q = q.withParams(m)
-		if q.Source != "enum" && countExpansions(m) >= 2 {
+		if (q.Source != "enum" || len(q.Features) >= 3) && countExpansions(m) >= 2 {
 			run.Add("queries_skipped_two_or_more_expansions", 1)
 			continue
 		}
@@ -92,6 +92,10 @@ func RunC02(run *core.Run, backend *SQLBackend, queries []Query, b Bounds) {
 		}
 		if errProd != nil {
 			run.Add("queries_rejected_by_translator", 1)
+			continue
+		}
+		if notClosed(prod) || notClosed(base) {
+			run.Add("statements_not_closed_left_to_C03", 1)
 			continue
 		}
 		run.Add("programs", 1)
@@ -144,8 +148,11 @@ func RunC02(run *core.Run, backend *SQLBackend, queries []Query, b Bounds) {
 			run.Add("programs_with_rewritten_cypher", 1)
 		}
 
-		d := q.domain(m, b)
-		ensureKinds(km, kindIDs, d)
+		ds := q.domains(m, b)
+		d := ds[len(ds)-1]
+		for _, dd := range ds {
+			ensureKinds(km, kindIDs, dd)
+		}
 		var evals, nonEmpty, compared int64
 		outside := false
 		judge := func(g *gm.Graph) bool {
@@ -209,7 +216,9 @@ func RunC02(run *core.Run, backend *SQLBackend, queries []Query, b Bounds) {
 			}
 			return true
 		}
-		d.Enumerate(judge)
+		for _, dd := range ds {
+			dd.Enumerate(judge)
+		}
 		if q.Source != "enum" {
 			budget := b.Budget
 			if q.Budget > 0 {
